@@ -40,11 +40,12 @@ void panic(const char *filename, int line, const char *fmt, ...) {
     char buffer[1000];
 
     va_start(args, fmt);
-    sprintf(buffer, "%sCGREEN EXCEPTION%s: <%s:%d>",
-            panic_use_colours?MAGENTA:"",
-            panic_use_colours?RESET:"",
-            filename, line);
-    vsprintf(&buffer[strlen(buffer)], fmt, args);
+    /* a message longer than the buffer is cut, not written past its end */
+    snprintf(buffer, sizeof(buffer), "%sCGREEN EXCEPTION%s: <%s:%d>",
+             panic_use_colours?MAGENTA:"",
+             panic_use_colours?RESET:"",
+             filename, line);
+    vsnprintf(&buffer[strlen(buffer)], sizeof(buffer) - strlen(buffer), fmt, args);
     va_end(args);
 
     if (panic_message_buffer != NULL)
